@@ -1321,6 +1321,9 @@ func c11GenValidatePending(r *Run, g *bGen, i int) c11Case {
 	c := c11Case{Kind: "validate-pending", Order: base.Order, BaseFee: base.BaseFee, FeePPM: base.FeePPM,
 		Ver: base.Ver, Buckets: base.Buckets}
 	p := g.genCase(g.pickVersion(), i)
+	for try := 0; try < 6 && len(p.Devs) > 0; try++ { // prefer proposals without a seeded deviation
+		p = g.genCase(g.pickVersion(), i)
+	}
 	c.Pending = p
 	if len(p.Env.Orders) == 0 || len(p.Env.Accounts) == 0 {
 		return c
@@ -1426,6 +1429,9 @@ func c11RunValidatePending(r *Run, c c11Case) {
 		}
 	}); pm != "" || verr != nil || !mgr.HasPendingBatch() {
 		r.Count("valp/batch-not-accepted")
+		if verr != nil {
+			r.Count("valp/batch-not-accepted/" + strings.SplitN(bClassify(verr), ":", 2)[0])
+		}
 		return
 	}
 	got := validate()
